@@ -43,6 +43,9 @@ def build_tree(tree, full, ctl_names=True):
     tree.write("maild/new/1", b"Subject: maildir one\n\nbody\n")
     tree.write("maild/cur/2:2,S", b"Subject: maildir two\n\nbody\n")
     tree.mkdir("maild/tmp")
+    # long paths: three nested names of 80 two-byte characters (a percent-encoded URL of well over 1024 bytes), a name of 255 bytes
+    tree.write("long/" + "\xe9" * 80 + "/" + "\xfc" * 80 + "/" + "\xf1" * 80 + "/deep.txt", b"deep\n")
+    tree.write("long/" + "n" * 255, b"255\n")
     if full:
         trees.add_full_list_content(tree)
         os.chmod(tree.path("hello.pyg"), 0o755)
